@@ -190,7 +190,7 @@ def main():
         "keys are interned (Nat ids into Cog.Gen.ConfigFacts.keyNames); a key outside the table is any id outside it",
         "C20_empty_rule_rejected needs the entry to be non-null: a null list item is dropped by yaml.v3 (C20_empty_rule_full_counterexample, replayed by stream c20-rules)",
     ]
-    ok, detail = gen_c20.regen()
+    ok, detail = gen_c20.regen(in_session=True)
     c.oblige("extractor xconfig: static key tables == measured (yaml.v3 probes), schema subset understood, decoder sites and As…() shapes understood", ok, detail)
     facts = None
     tables = os.path.exists(gen_c20.OUT_JSON) and os.path.exists(gen_c20.OUT_LEAN)
@@ -363,4 +363,5 @@ def main():
              explanation="proof over regenerated facts: key tables of the three loaders (measured with yaml.v3) and of schemas/*.json are proved bisimilar by a kernel-evaluated checker lifted to all documents by bisim_sound; unknown key at any depth by induction on the path")
 
 
-main()
+with gen_c20.session():
+    main()
